@@ -61,6 +61,21 @@ theorem C11gen_bls24_315_verify_errors {G G2 S L : Type} [AddCommGroup G] [CommR
   simp only [kzg_bls24_315.Verify, Res.errVerify]
   cases pcf [toInt v • g1 + toInt (-z) • H - C, H] lines <;> simp
 
+/-- the empty batch: `FoldProof` / `BatchVerifySinglePoint` answer ErrZeroNbDigests = the model (`C11_batchSingle_empty`) -/
+theorem C11gen_bls24_315_batchSingle_k0 (γ : ℕ) (H z g1 : Ex r) (l : ℕ × ℕ) (q0 q1 : Unit) :
+    (kzg_bls24_315.FoldProof_k0 (G := Ex r) (G2 := Unit) (S := Ex r) (L := ℕ × ℕ) Ex.toInt H z).2.2.2 = Res.err "ErrZeroNbDigests" ∧
+    kzg_bls24_315.BatchVerifySinglePoint_k0 (G := Ex r) (G2 := Unit) (S := Ex r) (L := ℕ × ℕ) Ex.toInt (pcFixed r) H z q0 q1 g1 l
+      = resOfVerdict (batchVerifySinglePoint r γ ⟨g1.v, l⟩ [] H.v [] z.v) := by
+  constructor
+  · rfl
+  · simp [kzg_bls24_315.BatchVerifySinglePoint_k0, kzg_bls24_315.FoldProof_k0, batchVerifySinglePoint, foldProof, resOfVerdict]
+
+/-- no claims: `BatchVerifyMultiPoints` answers ErrZeroNbDigests = the model -/
+theorem C11gen_bls24_315_multi_k0 (lams : List ℕ) (g1 : Ex r) (l : ℕ × ℕ) (q0 q1 : Unit) :
+    kzg_bls24_315.BatchVerifyMultiPoints_k0 (G := Ex r) (G2 := Unit) (S := Ex r) (L := ℕ × ℕ) Ex.toInt q0 q1 g1 l
+      = resOfVerdict (batchVerifyMultiPoints r ⟨g1.v, l⟩ lams [] [] []) := by
+  simp [kzg_bls24_315.BatchVerifyMultiPoints_k0, batchVerifyMultiPoints, resOfVerdict]
+
 /-- `fold` on 1 digests = `Model.KZG.fold` -/
 theorem C11gen_bls24_315_fold_k1_ex (d0 f0 c0 : Ex r) :
     kzg_bls24_315.fold_k1 (G := Ex r) (G2 := Unit) (S := Ex r) (L := ℕ × ℕ) Ex.toInt d0 f0 c0
